@@ -85,6 +85,7 @@ pub fn search(which: &str) -> Option<String> {
             "c14" => (i % 2 == 0, true, true),
             _ => (i % 2 == 1, false, true),
         };
+        crate::mark(&format!("{which}:{seed}:{}:{}:{}", tags as u8, rt as u8, chk as u8));
         if let Some(w) = case(seed, tags, rt, chk) {
             return Some(desc(&format!("{which}:{seed}:{}:{}:{}", tags as u8, rt as u8, chk as u8), &w));
         }
